@@ -63,7 +63,7 @@ def run(chk):
                     go = stats["emu_on_invalid"] <= 4        # a few, for the replay file
                 if not go:
                     return
-            rc, out, err = trace.run_tool(build, "ovniemu", ["-l"], os.path.join(res["dir"], "ovni"), timeout=120 if res["bad"] is None else 10)
+            rc, out, err = trace.run_tool(ctx.art, "ovniemu", ["-l"], os.path.join(res["dir"], "ovni"), timeout=120 if res["bad"] is None else 10)
             res["emu"] = (rc, err[-1500:])
 
     def judge(c, res):
